@@ -270,8 +270,87 @@ def detect_worker(args):
     return hutil.export(chk)
 
 
+def arraylen_worker(args):
+    """the same constants used as an array length in a type string: parse_c_type's own decoding of the getter"""
+    prop, tier, kind, i, j = args
+    chk = hutil.sub_check(prop, tier)
+    back = irgen.backend()
+    gen = generated_module()
+    t, size, sg = CTYPES[i]
+    checked = j is not None
+    cname = ('K%d_%d' % (i, j)) if checked else ('U%d' % i)
+    label = 'array-length:%s:%s' % (t, ('cdef=%d' % CDEF_VALUES[j]) if checked else 'unchecked')
+    sys.path.insert(0, os.path.join(common.REPO, 'src'))
+    from cffi import cffi_opcode
+
+    def ext(ex, name, g, m):
+        if name.startswith('sym_'):
+            k = int(name[4:]) if name[4:].isdigit() else None
+            sz = CTYPES[k][1] if k is not None else 4
+            r = ex.mem.alloc(sz, '@' + name, 'global')
+            ex.mem.store(r.base, z3.BitVec('compiler_value', 8 * sz), sz)
+            return r
+        return pystubs.extern_global(ex, name, g, m)
+    st = pystubs.stubs()
+    st['@*'] = ext
+    st['sprintf'] = lambda e, dst, fmt, *a: (e.mem.store(dst, 0, 1), 0)[1]
+    ex = llsym.Executor([gen, back], st, loop_bound=32)
+    ctxl = back.struct_layout(('named', 'struct._cffi_type_context_s'))
+    gl = back.struct_layout(('named', 'struct._cffi_global_s'))
+    info_l = back.struct_layout(('named', 'struct._cffi_parse_info_s'))
+
+    def h(ex):
+        mem = ex.mem
+        C = z3.BitVec('compiler_value', 8 * size)
+        cv = z3.SignExt(W - 8 * size, C) if sg else z3.ZeroExt(W - 8 * size, C)
+        globs = mem.alloc(gl[1], 'globals[1]', 'heap', fill=0)
+        nm = mem.alloc(len(cname) + 1, 'name', 'heap', fill=0)
+        for k, ch in enumerate(cname.encode()):
+            mem.store(nm.base + k, ch, 1)
+        mem.store(globs.base + gl[0][0], nm.base, 8)
+        mem.store(globs.base + gl[0][1], ex.faddr('_cffi_const_' + cname), 8)
+        mem.store(globs.base + gl[0][2], cffi_opcode.OP_CONSTANT_INT, 8)
+        ctx = mem.alloc(ctxl[1], 'type context', 'heap', fill=0)
+        mem.store(ctx.base + ctxl[0][1], globs.base, 8)
+        mem.store(ctx.base + ctxl[0][6], 1, 4)
+        text = ('int[%s]' % cname).encode()
+        inp = mem.alloc(len(text) + 1, 'type string', 'input')
+        for k, ch in enumerate(text):
+            mem.store(inp.base + k, ch, 1)
+        mem.store(inp.base + len(text), 0, 1)
+        outp = mem.alloc(8 * 8, 'output opcodes', 'input')
+        info = mem.alloc(info_l[1], 'parse info', 'heap', fill=0)
+        mem.store(info.base + info_l[0][0], ctx.base, 8)
+        mem.store(info.base + info_l[0][1], outp.base, 8)
+        mem.store(info.base + info_l[0][2], 8, 4)
+        r = simp(ex.call('parse_c_type', [info.base, inp.base]))
+        r = ex.concretize(r, 32, 16, 'result') if not is_c(r) else r
+        rs = llsym.signed(r, 32)
+        inputs = {'compiler_value': C}
+        agrees = (cv == V_const(CDEF_VALUES[j])) if checked else z3.BoolVal(True)
+        usable = z3.And(agrees, cv >= 0)
+        if rs >= 0:
+            hutil.witness(chk, ex, label + ':accepted')
+            hutil.discharge(chk, ex, label + ':accepted=>cdef-agrees-and-nonnegative', usable, inputs)
+            op = simp(mem.load(outp.base + 8 * rs, 8))
+            okop = is_c(op) and (op & 255) == cffi_opcode.OP_ARRAY
+            hutil.discharge(chk, ex, label + ':accepted=>array-opcode', okop, inputs)
+            if okop:
+                ln = bv(mem.load(outp.base + 8 * (rs + 1), 8), 64)
+                hutil.discharge(chk, ex, label + ':length==compiler-value', z3.SignExt(W - 64, ln) == cv, inputs)
+        else:
+            hutil.witness(chk, ex, label + ':rejected')
+            hutil.discharge(chk, ex, label + ':rejected=>disagreement-or-negative-or-too-large',
+                            z3.Or(z3.Not(usable), cv > V_const((1 << 63) - 1)), inputs)
+
+    res = ex.explore(h, max_paths=500)
+    hutil.finish_explore(chk, ex, res, label)
+    chk.functions = irgen.func_info(gen, sorted(ex.called)) + irgen.func_info(back, sorted(ex.called))
+    return hutil.export(chk)
+
+
 def dispatch(args):
-    return {'const': const_worker, 'struct': struct_worker, 'detect': detect_worker}[args[2]](args)
+    return {'arraylen': arraylen_worker, 'const': const_worker, 'struct': struct_worker, 'detect': detect_worker}[args[2]](args)
 
 
 def run(chk):
@@ -282,11 +361,15 @@ def run(chk):
         for j in range(len(CDEF_VALUES)):
             cases.append(P + ('const', i, j))
         cases.append(P + ('const', i, None))
+    for i in (0, 2, 4, 5, 7, 9):
+        for j in (0, 1, 2, None):
+            cases.append(P + ('arraylen', i, j))
     for N in range(0, 3 if quick else 5):
         cases.append(P + ('struct', N, True))
         cases.append(P + ('struct', N, False))
     cases.append(P + ('detect',))
     chk.bounds = {'integer constants': '%d integer types x cdef values %r x every compiler value; unchecked constants of every type' % (len(CTYPES), CDEF_VALUES),
+                  'constants as array lengths': 'parse_c_type("int[K]") for 6 of the types x cdef values / unchecked x every compiler value',
                   'struct checks': '0..%d primitive fields of symbolic size, every compiler-reported offset (<= 4096), sizeof, alignof' % (2 if quick else 4)}
     chk.outside = ['functions and global variables of the module (call plumbing: C13), import machinery',
                    'the wrong-field-size check of do_realize_lazy_struct beyond detect_custom_layout itself',
